@@ -1094,8 +1094,14 @@ Strengthening round (2026-10-04, codec classes).  Reviewers' changes (bin/seedte
       types hold a float literal (client compilation faults; 12 VIOLATION lines, .ao and .al, run and exe).
   /tmp/seeded/C05-2 (foamSIntReduce drops a shift) still caught by the SIntReduce part.
 Mutations of this round (scratch worktrees, VERIF_SRC=...):
-  MA sefo.c sefoToBuffer writes a string literal before its syme number (reader / skipper unchanged)   -> see result below
-  MB foam.c foamFrBuffer0 reads a label (`L') in the node's format instead of labelFmt                 -> see result below
+  MA sefo.c sefoToBuffer writes a string literal before its syme number (reader / skipper unchanged)
+      -> VIOLATION x14: every library + client program faults in the client (12), and TraceSefoCodec on the real type
+         sections: "the skipping reader does not arrive at the end of the section" (2).
+  MB foam.c foamFrBuffer0 reads a label (`L') in the node's format instead of labelFmt
+      -> VIOLATION: TraceFoamCodec "Unit node: fault in the skipping-reader" (foamConstvFrBuffer asserts on the units whose
+         programs have labels); the compiler is then so broken that half of the (program, level) pairs fail directly --
+         the machinery errors "pairs fail without any saved form" / "do not reach what the codec specifications enumerate"
+         are raised only when no violation has been recorded before (first attempt: exit 2 instead of 1).
 Model level: SefoCodecSharp.cfg (skipper without float literals) violates IndexOK; FoamCodecAsWritten.cfg (no exemptions)
 violates ChoiceOK on TR / Prog / BInt -- the latter two are real: the replay of the node family into foam.c found that
 foamToBuffer truncates the `format' field of a Prog and the place count of a BInt (known_findings.jsonl, candidate patches
@@ -1104,6 +1110,10 @@ format numbers in bytes (candidate-C05-fint-denv-format-byte.diff) and the type 
 an archive crashes the client.  With the three candidate patches applied (worktree) the check holds with the cross-unit
 inlining and the archive-constant KNOWN-FINDING lines only.
 VERIF_C05_CORRUPT=codec flips one bit of one recorded encoding -> TraceFoamCodec BAD "denotes" -> VIOLATION.
-Pitfall: `-coverage 1' makes TLC 100 times slower on FoamCodec / SefoCodec (recursive readers): not used there; the run-through of
-the machines is checked by diameter and state count instead.
+Pitfalls: `-coverage 1' makes TLC 100 times slower on FoamCodec / SefoCodec (recursive readers): not used there; the run-through
+of the machines is checked by diameter and state count instead.  A LET definition is evaluated again at every use: the trace
+specifications bind Index(bytes) / Decode(bytes) with \E x \in {e} (TraceSefoCodec: 120 s -> 3 s).  The interpreter has 3000 stack
+slots per frame: the unit `loc' keeps its function below that.  The unit with the long Integer literal runs under `ulimit -v'
+(the unchanged compiler allocates until memory is exhausted).  Quick tier at machine load 60: 180 s wall, 450 CPU-s (before this
+round: 250 CPU-s); thorough 35 min at load 60..170.
 """
